@@ -217,9 +217,27 @@ func cmdCheck(g *Gen, prop, tier, evid, replayDir, knownPath string, loadSecs fl
 	var engineErrs []string
 	trusted := map[string]string{}
 	nContracts := 0
+	// explicit contracts in file order, then functions that only carry package-wide tags
+	keys := append([]string{}, g.contractOrder...)
+	covered := map[string]bool{}
 	for _, key := range g.contractOrder {
+		for _, n := range g.matchFuncs(key) {
+			covered[n] = true
+		}
+	}
+	for _, n := range g.fnames {
+		if !covered[n] && g.contractFor(n) != nil {
+			keys = append(keys, n)
+		}
+	}
+	for _, key := range keys {
 		k := g.contracts[key]
-		if !k.mentions(prop) {
+		if k == nil {
+			k = g.contractFor(key)
+		} else if ms := g.matchFuncs(key); len(ms) > 0 {
+			k = g.contractFor(ms[0])
+		}
+		if k == nil || !k.mentions(prop) {
 			continue
 		}
 		nContracts++
